@@ -1,6 +1,7 @@
 package main
 
 import (
+	"github.com/olive-io/bpmn/v2/pkg/event"
 	"fmt"
 	"strings"
 	"sync"
@@ -257,6 +258,68 @@ func runC06(env *Env) {
 			rep.Violate("C06-one-winner", cs, fmt.Sprintf("N requested %d times; log: %s", n, logString(in.Log())))
 		}
 		in.Close()
+	}
+	// two gateways waiting for the same message one after the other ("escalating wait"): g1 {signal remind | message pay};
+	// remind wins and leads to g2 {message pay | signal stop}; pay is delivered: g2's alternative wins — the withdrawn
+	// alternative of g1, which listened for the same message, has no effect. Many instances (a goroutine race decides
+	// who sees the message first).
+	{
+		p := &Prog{}
+		p.Node("start", "start")
+		p.Node("ebg", "G1")
+		p.Node("ebg", "G2")
+		p.Node("end", "endPaid1")
+		p.Node("end", "endPaid2")
+		p.Node("end", "endStop")
+		c := p.Node("catch", "R1")
+		c.Inner = `<bpmn:signalEventDefinition id="r1d" signalRef="remind"/>`
+		c = p.Node("catch", "P1")
+		c.Inner = `<bpmn:messageEventDefinition id="p1d" messageRef="pay"/>`
+		c = p.Node("catch", "P2")
+		c.Inner = `<bpmn:messageEventDefinition id="p2d" messageRef="pay"/>`
+		c = p.Node("catch", "S2")
+		c.Inner = `<bpmn:signalEventDefinition id="s2d" signalRef="stop"/>`
+		p.Flow("start", "G1", "")
+		p.Flow("G1", "R1", "")
+		p.Flow("G1", "P1", "")
+		p.Flow("P1", "endPaid1", "")
+		p.Flow("R1", "G2", "")
+		p.Flow("G2", "P2", "")
+		p.Flow("G2", "S2", "")
+		p.Flow("P2", "endPaid2", "")
+		p.Flow("S2", "endStop", "")
+		defs, err := ParseDefs(p.XML(`<bpmn:signal id="remind" name="remind"/><bpmn:signal id="stop" name="stop"/><bpmn:message id="pay" name="pay"/>`))
+		must(err)
+		instances := 300
+		if env.Thorough() {
+			instances = 3000
+		}
+		cs := fmt.Sprintf("two event-based gateways waiting for the same message one after the other, %d instances: remind, then pay", instances)
+		env.Current(cs)
+		bad, firstBad := 0, ""
+		for i := 0; i < instances && bad < 3; i++ {
+			in, err := StartInst(defs, InstOpt{})
+			must(err)
+			ok := in.WaitUntil(tmoStep, func(l []Ev) bool { return countEv(l, "listening", "R1") >= 1 && countEv(l, "listening", "P1") >= 1 })
+			in.Signal("remind")
+			ok = ok && in.WaitUntil(tmoStep, func(l []Ev) bool { return countEv(l, "listening", "P2") >= 1 && countEv(l, "listening", "S2") >= 1 })
+			in.P.ConsumeEvent(event.NewMessageEvent("pay", nil))
+			done := ok && in.WaitUntil(2*time.Second, func(l []Ev) bool { return countEv(l, "cease", "*") >= 1 })
+			l := in.Log()
+			if !done || countEv(l, "visit", "endPaid2") != 1 || countEv(l, "visit", "endPaid1") != 0 || countEv(l, "visit", "endStop") != 0 {
+				bad++
+				if firstBad == "" {
+					firstBad = fmt.Sprintf("instance %d: completed %v, endPaid2 %d, endPaid1 %d, endStop %d; log: %s", i, done, countEv(l, "visit", "endPaid2"), countEv(l, "visit", "endPaid1"), countEv(l, "visit", "endStop"), logString(l))
+				}
+			}
+			in.Close()
+		}
+		rep.Evaluations++
+		rep.Nontrivial++
+		rep.Count("two_gateways_same_message")
+		if bad > 0 {
+			rep.Violate("C06-late-event", cs, fmt.Sprintf("%d instances went wrong, e.g. %s", bad, firstBad))
+		}
 	}
 	// the gateway in a loop: the winning alternative's branch leads back to the gateway, which must run a fresh
 	// race every time the token comes round
